@@ -219,7 +219,7 @@ bool serial_connect(Device * dev)
 
     /* parse the serial flags and set up port accordingly */
     n = sscanf(ser->flags, "%d,%d%c%d", &baud, &databits, &parity, &stopbits);
-    assert(n >= 0 && n <= 4); /* 0-4 matches OK (defaults if no match) */
+    assert(n >= EOF && n <= 4); /* EOF (empty flags), 0-4 matches OK (defaults if no match) */
     res = _serial_setup(dev->name, dev->fd, baud, databits, parity, stopbits);
     if (res < 0)
         goto out;
